@@ -4,21 +4,25 @@ Every function returns a list of (label, formula) parts; the assertion is their 
 from __future__ import annotations
 from .symnet import refines, in_space, meet
 
-_CACHE = {}
+def _cache_of(B):
+    """per-backend memo, stored ON the backend object (an id()-keyed global table would hand a dead backend's entries
+    to a new object that happens to get the same address)"""
+    d = B.__dict__.get("_specs_cache")
+    if d is None:
+        d = B.__dict__["_specs_cache"] = {}
+    return d
 
 
 def _c(B, key, f):
-    d = _CACHE.setdefault(id(B), {})
+    d = _cache_of(B)
     if key not in d:
         d[key] = f()
     return d[key]
 
 
 def clear_cache(B=None):
-    if B is None:
-        _CACHE.clear()
-    else:
-        _CACHE.pop(id(B), None)
+    if B is not None:
+        B.__dict__.pop("_specs_cache", None)
 
 
 def E(B):
@@ -87,7 +91,7 @@ def expanded_node_spec(B, dump, nid, root_id=0, source_opt=True):
     S = nodes[nid]["space"]
     edges = out_edges(dump)[nid]
     ckey = ("ens", nid, S, nid == root_id, source_opt, tuple((e["c"], nodes[e["c"]]["space"], e["motif"], tuple(e["all_motifs"])) for e in edges))
-    d = _CACHE.setdefault(id(B), {})
+    d = _cache_of(B)
     if ckey in d:
         return d[ckey]
     parts = d[ckey] = []
